@@ -205,17 +205,16 @@ func readCurrentRegex(filePath string, ruleId string, chainOffset uint8) string 
 			continue
 		}
 		if foundRule && regex.SecRuleRegex.Match(line) {
+			if index+1 < len(lines) && nextRuleIdRegex.Match(lines[index+1]) {
+				// a SecRule line that is followed by an id action starts the next rule: the chain of
+				// this rule ends here, whatever the offset (the walk must not go on into the next rule's chain)
+				logger.Fatal().Msgf("Rule %s has no chained rule at offset %d in %s", ruleId, chainOffset, filePath)
+			}
 			chainCount++
 		}
 		if foundRule && chainCount == chainOffset {
 			break
 		}
-	}
-	if foundRule && chainOffset > 0 && chainOffset == chainCount && index+1 < len(lines) &&
-		regexp.MustCompile(`^\s*[^#\s].*\bid:\d+|^\s*id:\d+`).Match(lines[index+1]) {
-		// a SecRule line that is followed by an id action starts the next rule,
-		// it is not part of the chain of this rule
-		logger.Fatal().Msgf("Rule %s has no chained rule at offset %d in %s", ruleId, chainOffset, filePath)
 	}
 	if !foundRule || chainOffset != chainCount || index < 0 {
 		logger.Fatal().Msgf("Failed to find rule %s, chain offset, %d in %s", ruleId, chainOffset, filePath)
